@@ -1,7 +1,8 @@
 import VelaVerif.Model.Caches
 /-!
 Concrete programs of the process-state model used by `Props/C14.lean`: one shaped like a real compilation (meets
-`Suff`), and the smallest programs that show each way the unchanged code leaves `Suff`.
+`Suff`), the smallest programs that showed each way the code used to leave the hypothesis of `history_independent`
+(now instances of the theorem), and two that show the remaining hypotheses are needed.
 -/
 namespace VelaVerif.Caches
 
@@ -41,5 +42,8 @@ def crashProg : Bool × Nat → Prog Nat
   | (true, r) => .assign [.memo 7] r (.assign [.memo 7] (r + 1) (.ret r))
   | (false, r) => .assign [.memo 7] r (.ret r)
 
+
+/-- `default_arch_cache[accelerator 3]` filled with a value that depends on the request (a command-line option) -/
+def archLeakProg (rq : Nat) : Prog Nat := .memo .arch [.lit 3] rq fun arch => .ret arch
 
 end VelaVerif.Caches
